@@ -1436,6 +1436,13 @@ def _fd_release_blocks(F, body, comp, of_operand, c, depth, memo, notes):
     awaited here)."""
     du = Q.DefUse(body)
     rel = set()
+    # a close-on-drop guard that holds this end closes it when it is dropped (also when the future is cancelled)
+    for gb, gt, gl, cons in Q.close_guard_drops(F, body):
+        for b_, j_, st_ in body.stmts():
+            if st_['k'] == 'assign' and not st_['lhs'].get('p') and st_['lhs']['l'] == gl and st_['rv']['k'] == 'agg' \
+                    and any(of_operand(o) == {c} for o in st_['rv'].get('ops') or []):
+                rel.add(gb)
+                notes.append('%s: held by a close-on-drop guard, dropped at %s' % (body.fn, body.loc(gt)))
     for b, t in body.calls():
         hits = [i for i, a in enumerate(t['a']) if of_operand(a) == {c}]
         if not hits:
